@@ -77,6 +77,8 @@ type EnvOpts struct {
 	// AlertStorage overrides the storage service of the alert service (C08).
 	AlertStorage alertservice.StorageService
 	NoAlert      bool
+	// TopicBuffer is the per-handler event buffer of the alert service (0 = product default 5000).
+	TopicBuffer int
 }
 
 func NewEnv(o EnvOpts) (*Env, error) {
@@ -88,7 +90,7 @@ func NewEnv(o EnvOpts) (*Env, error) {
 	e := &Env{TM: tm, Rec: rec}
 	if !o.NoAlert {
 		ds := DiagService()
-		as := alertservice.NewService(ds.NewAlertServiceHandler(), nil, 0)
+		as := alertservice.NewService(ds.NewAlertServiceHandler(), nil, o.TopicBuffer)
 		as.PersistTopics = o.PersistTopics
 		if o.AlertStorage != nil {
 			as.StorageService = o.AlertStorage
